@@ -182,10 +182,11 @@ def corpus():
     out.append(mk("lambda j: sum([h(j.a, j.b) for j in j.jets])", [("h", ["a", "b"], "sum([a + b + j for j in [1, 2]])", "def")], tags={"FC4"}, group="corpus"))
     out.append(mk("lambda e: (lambda a: (lambda b: sum(e.jets.Select(lambda a: b + a.pt)))(a + 1))(e.a)", [], tags={"FC4"}, group="corpus"))
     # FC6: a function the helper calls by name has the name of a parameter of the passed lambda: the helper stays by name
-    out.append(mk("lambda mg: hg(mg.a)", [("mg", ["q"], "q * 2", "multi"), ("hg", ["a"], "mg(a) + 1", "def")], tags={"FC6"}, group="corpus"))
-    out.append(mk("lambda e: sum(e.jets.Select(lambda mg: hg(mg.pt)))", [("mg", ["q"], "q * 2", "multi"), ("hg", ["a"], "mg(a) + 1", "def")], tags={"FC6"}, group="corpus"))
-    out.append(mk("lambda e: sum([hg(mg.pt) for mg in e.jets]) + hg(e.a)", [("mg", ["q"], "q * 2", "multi"), ("hg", ["a"], "mg(a) + 1", "def")], tags={"FC6"}, group="corpus"))
-    out.append(mk("lambda abs: h(abs.a)", [("h", ["a"], "abs(a) + 1", "def")], tags={"FC6"}, group="corpus"))
+    # (helpers that stay by name are executed by the oracle, so these programs do not rebind them after the call)
+    out.append(_keep(mk("lambda mg: hg(mg.a)", [("mg", ["q"], "q * 2", "multi"), ("hg", ["a"], "mg(a) + 1", "def")], tags={"FC6"}, group="corpus")))
+    out.append(_keep(mk("lambda e: sum(e.jets.Select(lambda mg: hg(mg.pt)))", [("mg", ["q"], "q * 2", "multi"), ("hg", ["a"], "mg(a) + 1", "def")], tags={"FC6"}, group="corpus")))
+    out.append(_keep(mk("lambda e: sum([hg(mg.pt) for mg in e.jets]) + hg(e.a)", [("mg", ["q"], "q * 2", "multi"), ("hg", ["a"], "mg(a) + 1", "def")], tags={"FC6"}, group="corpus")))
+    out.append(_keep(mk("lambda abs: h(abs.a)", [("h", ["a"], "abs(a) + 1", "def")], tags={"FC6"}, group="corpus")))
     # the former open findings (closed by FC4 and FC5)
     out.append(mk("lambda j: h(j)", [("h", ["a"], "sum(a.jets.Select(lambda j: j.pt + a.pt))", "def")], group="corpus"))
     out.append(mk("lambda e: h(e.a)", [("h", ["a"], "a + e", "def")], group="corpus", tags=()).__class__ and
